@@ -516,3 +516,116 @@ Definition dec_cell (v : Val) : cellkey * Q :=
    Qmake (getZ (nthV 2 v)) (Z.to_pos (getZ (nthV 3 v)))).
 
 Definition pre (o : opts) (reads : list read) : bool := wf_opts o && forallb wf_read reads.
+
+(* ---------------------------------------------------------------- declarative specification (executable form)
+   order-free filter conjunction, closed-form weight, group-by sum.  Total functions: no exceptions. *)
+Definition has_op (r : read) (ops : list Z) : bool := existsb (fun op => existsb (Z.eqb op) ops) (cigar r).
+
+Definition nm_ok (o : opts) (r : read) : bool :=
+  match o_max_edits o, get_tag r t_NM with
+  | Some m, Some (TInt n) => n <=? m
+  | Some m, Some (TStr s) => match parse_int s with Some n => n <=? m | None => true end
+  | _, _ => true
+  end.
+
+Definition xa_nonalt_entry (e : str) : bool := negb (is_nil e) && negb (ends_with s_alt (hd [] (split [44] e))).
+Definition xa_nonalt (r : read) : bool :=
+  match get_tag r t_XA with Some (TStr s) => existsb xa_nonalt_entry (split [59] s) | _ => false end.
+
+Definition bl_in (o : opts) (r : read) : bool :=
+  match o_blacklist o, refname r with
+  | Some bl, Some c =>
+      existsb (fun row => str_eqb (fst (fst row)) c
+                          && (in_iv (rstart r) (snd (fst row)) (snd row)
+                              || match rend r with Some e => in_iv e (snd (fst row)) (snd row) | None => false end)) bl
+  | _, _ => false
+  end.
+
+Definition passesb (o : opts) (r : read) : bool :=
+  negb (o_r1only o && read2 r) && negb (o_r2only o && read1 r)
+  && (negb (o_filterMP o) || mp_unique r)
+  && negb (qcfail r) && (o_minMQ o <=? mapq r)
+  && (negb (o_proper o) || proper r)
+  && negb (unmapped r)
+  && (negb (o_no_indels o) || negb (has_op r [1; 2]))
+  && nm_ok o r
+  && (negb (o_no_softclips o) || negb (has_op r [4]))
+  && (negb (o_filterXA o) || negb (xa_nonalt r))
+  && (negb (o_dedup o) || (negb (has_tag r t_RR) && negb (dup r)))
+  && negb (bl_in o r).
+
+(* number of reported hits the weight is divided by *)
+Definition hits (o : opts) (r : read) : Z :=
+  if o_div_multi o then
+    match get_tag r t_XA with
+    | Some (TStr s) => Z.of_nat (length (split [59] s))
+    | Some (TInt _) => 1
+    | None => match get_tag r t_NH with
+              | Some (TInt n) => n
+              | Some (TStr s) => match parse_int s with Some n => n | None => 1 end
+              | None => 1
+              end
+    end
+  else 1.
+
+Definition pure_weight (o : opts) (r : read) : Q := (base_weight o r / inject_Z (hits o r))%Q.
+
+Definition pure_incs (o : opts) (r : read) : list (rawkey * Q) :=
+  match incs o (pure_weight o r) r with Ok l => l | Raise _ => [] end.
+
+Definition spec_contrib (o : opts) (reg : option (Z * Z * str)) (r : read) : list (cellkey * Q) :=
+  if passesb o r
+  then map (fun p => ((sample_of o r, fst p), snd p)) (final_keys o reg (pure_incs o r))
+  else [].
+
+(* the (region, read) pairs presented to assignReads *)
+Definition presented (o : opts) (reads : list read) : list (option (Z * Z * str) * read) :=
+  match o_bed o with
+  | None => map (pair None) (match o_contig o with Some c => filter (on_contig c) reads | None => reads end)
+  | Some regions =>
+      flat_map (fun row => let '(c, s, e, n) := row in
+                           if region_selected o c then map (pair (Some (s, e, n))) (filter (overlaps c s e) reads)
+                           else []) regions
+  end.
+
+Definition sum_matching (k : cellkey) (l : list (cellkey * Q)) : Q :=
+  fold_right (fun c acc => ((if ck_eqb k (fst c) then snd c else 0) + acc)%Q) 0%Q l.
+
+Definition spec_cell (o : opts) (k : cellkey) (reads : list read) : Q :=
+  fold_right (fun p acc => (sum_matching k (spec_contrib o (fst p) (snd p)) + acc)%Q) 0%Q (presented o reads).
+
+Definition spec_keys (o : opts) (reads : list read) : list cellkey :=
+  flat_map (fun p => map fst (spec_contrib o (fst p) (snd p))) (presented o reads).
+
+Fixpoint nodup_keys (l : list cellkey) : bool :=
+  match l with [] => true | k :: l' => negb (existsb (ck_eqb k) l') && nodup_keys l' end.
+
+(* the specification evaluated on an observed result (Some cells = a table, None = an exception) *)
+Definition specb (o : opts) (reads : list read) (out : option (list (cellkey * Q))) : bool :=
+  if pre o reads then
+    match out with
+    | None => false
+    | Some cells =>
+        forallb (fun c => Qeq_bool (snd c) (spec_cell o (fst c) reads)) cells
+        && forallb (fun k => Qeq_bool (spec_cell o k reads) 0 || existsb (ck_eqb k) (map fst cells)) (spec_keys o reads)
+        && nodup_keys (map fst cells)
+    end
+  else true.
+
+Definition enc_rb (x : res bool) : Val :=
+  match x with Ok b => VL [VZ 0; ofB b] | Raise e => VL [VZ 1; VZ e] end.
+
+Definition run_C11 (mode : Z) (v : Val) : Val :=
+  match mode with
+  | 0 => enc_res (count_table (dec_opts (nthV 0 v)) (map dec_read (getL (nthV 1 v))))
+  | 1 => ofB (pre (dec_opts (nthV 0 v)) (map dec_read (getL (nthV 1 v))))
+  | 2 => let inp := nthV 0 v in let out := nthV 1 v in
+         let o := dec_opts (nthV 0 inp) in let reads := map dec_read (getL (nthV 1 inp)) in
+         ofB (specb o reads (if getZ (nthV 0 out) =? 0 then Some (map dec_cell (getL (nthV 1 out))) else None))
+  | 3 => let o := dec_opts (nthV 0 v) in
+         VL (map (fun r => enc_rb (should_count o (dec_read r))) (getL (nthV 1 v)))
+  | 4 => let o := dec_opts (nthV 0 v) in
+         VL (map (fun r => VL [enc_rb (should_count_orig o (dec_read r)); ofB (passesb o (dec_read r)); ofB (wf_read (dec_read r))])
+                 (getL (nthV 1 v)))
+  | _ => bad
+  end.
